@@ -31,13 +31,14 @@ type counting struct {
 func (c *counting) WriteHeader(code int) { c.wh++; c.ResponseRecorder.WriteHeader(code) }
 
 type Case struct {
-	Kind    string  `json:"kind"`
-	Mode    string  `json:"mode"`
-	Ops     [][]any `json:"ops"`
-	Prios   []int   `json:"prios"`
-	Mws     []Mw    `json:"mws"`
-	Throw   bool    `json:"throw"`
-	OnError [][]any `json:"onerror"`
+	Kind     string  `json:"kind"`
+	Mode     string  `json:"mode"`
+	Ops      [][]any `json:"ops"`
+	Prios    []int   `json:"prios"`
+	Mws      []Mw    `json:"mws"`
+	Throw    bool    `json:"throw"`
+	OnError  [][]any `json:"onerror"`
+	OnFormat bool    `json:"onformat"`
 }
 
 type Obs struct {
@@ -153,6 +154,10 @@ func opsScript(sb *strings.Builder, v string, ops [][]any) {
 			fmt.Fprintf(sb, "%s->success();\n", v)
 		case "error0":
 			fmt.Fprintf(sb, "%s->error();\n", v)
+		case "formatfail":
+			// with the server's onFormat closure throwing for the message "boom": the formatted
+			// call fails before anything is written and must leave the response untouched
+			fmt.Fprintf(sb, "try { %s->%s; %s->write(\"NOTREFUSED\"); } catch (\\Throwable $e) { }\n", v, str(op[1]), v)
 		case "badstatus":
 			// an out-of-range status code must be refused with a catchable error and have no effect
 			fmt.Fprintf(sb, "try { %s->%s(%d); %s->write(\"NOTREFUSED\"); } catch (\\Throwable $e) { }\n", v, str(op[1]), num(op[2]), v)
@@ -207,6 +212,11 @@ type Mw struct {
 func runServer(c Case) (o Obs) {
 	var sb strings.Builder
 	sb.WriteString("use Net\\Http\\Server;\n$server = new Server('127.0.0.1', 0);\n")
+	if c.OnFormat {
+		sb.WriteString("$server->onFormat(function ($code, $message, $data) {\n" +
+			"if ($message == \"boom\") { throw new Exception(\"fmt\"); }\n" +
+			"return [\"code\" => $code, \"message\" => $message, \"data\" => $data, \"timestamp\" => 0];\n});\n")
+	}
 	if c.OnError != nil {
 		sb.WriteString("$server->onError(function ($request, $response, $error) {\n")
 		opsScript(&sb, "$response", c.OnError)
